@@ -10,6 +10,7 @@ import (
 	"encoding/json"
 	"fmt"
 	"math"
+	"path"
 	"sort"
 	"strconv"
 	"strings"
@@ -352,7 +353,9 @@ func newSvcModel(full bool) *svcModel {
 	vclock.Enable(vclock.Epoch)
 	m := &svcModel{st: fakeetcd.New()}
 	m.s = bootServer(m.st)
-	services := []string{"a", "b/gc_worker", "gc_worker"} // "b/gc_worker": an ordinary service whose id merely ends like the collector's
+	// "b/gc_worker": an ordinary service whose id merely ends like the collector's; "..", "x/../gc_worker":
+	// ids that a path clean-up would turn into another key (the cluster safe point, the collector's entry)
+	services := []string{"a", "b/gc_worker", "gc_worker", "..", "x/../gc_worker"}
 	ttls := []int64{-1, 0, 5, math.MaxInt64 - 1, math.MaxInt64}
 	sps := []uint64{10, 20, 30}
 	if full {
@@ -386,6 +389,7 @@ func (m *svcModel) Reset() {
 	}
 	m.ref = map[string]ent{}
 	m.last = ""
+	m.st.PutDirect(gcKey, strconv.FormatUint(50, 16)) // the cluster GC safe point: service calls never touch it
 	// virtual time only moves forward over all the histories a worker replays: renew the
 	// leadership long before the (very long) lease runs out
 	if ls := m.s.VerifMember().GetLeadership(); ls.VerifLeaseExpireTime().Sub(vclock.Base()) < 100000*time.Second {
@@ -508,7 +512,28 @@ func (m *svcModel) Apply(i int) *hist.Violation {
 	if serr != nil {
 		return &hist.Violation{Key: "stored-garbage", Msg: serr.Error()}
 	}
+	if g, _ := m.st.Get(gcKey); g != strconv.FormatUint(50, 16) {
+		return &hist.Violation{Key: "service-call-changed-gc-safepoint", Msg: fmt.Sprintf("after %s the stored cluster GC safe point is %q (it was 50 = %q)", o, g, strconv.FormatUint(50, 16))}
+	}
 	now := m.nowUnix()
+	if path.Clean("/"+o.service) != "/"+o.service && err != nil {
+		// an id that is not a clean path may be refused (nothing changes) or be treated as an
+		// ordinary service under exactly that id; it must never reach another record
+		// side effects every call may have: the collector's entry is created, expired entries go
+		for k, v := range after {
+			if b, had := before[k]; (had && b != v) || (!had && k != "gc_worker") {
+				return &hist.Violation{Key: "refused-id-changed-state", Msg: fmt.Sprintf("%s was refused (%v) but the stored entries changed: %v -> %v", o, err, before, after)}
+			}
+		}
+		for k, b := range before {
+			if _, still := after[k]; !still && b.exp >= now {
+				return &hist.Violation{Key: "refused-id-changed-state", Msg: fmt.Sprintf("%s was refused (%v) but the live entry of %s disappeared: %v -> %v", o, err, k, before, after)}
+			}
+		}
+		m.ref = after
+		m.last = "err=id"
+		return nil
+	}
 	if faulted && err != nil {
 		// a storage request of this call was refused and the call reported an error: nothing was
 		// acknowledged; the reference continues from what is stored
